@@ -468,6 +468,13 @@ def findLF : List Byte → Option Nat
   | [] => none
   | b :: r => if b = bLF then some 0 else (findLF r).map (· + 1)
 
+/-- the statement order this model implements for the PORT_ASCII loop, add_console_line's checks and the telnet store
+    (compared with the order read from the source text: `Props.statement_order_tie`) -/
+def asciiLoopOrderModel : List String :=
+  ["commitStart", "storeNul", "callback", "revalidate", "resetTest", "advance", "moveRest"]
+def consoleCheckOrderModel : List String := ["emptyTest", "makeRoomTest", "discard", "fitTest"]
+def telnetStoreOrderModel : List String := ["copyChars", "deadTest", "advanceEnd", "terminator", "cmdFlag"]
+
 inductive LoopEnd where
   | done        -- no further LF
   | aborted     -- process_input raised an error: get_user_data is left with what has been committed so far
